@@ -26,7 +26,9 @@ chk("C04", "model_checking",
     "TLC exhaustively checks 13 named group/metadata laws on every one of the 237 exported tables and runs the "
     "lookup automaton of sg.__init__ for every number/setting pair and every dictionary key in 6 spellings; every "
     "lookup behaviour is replayed into the real sg.sg and compared with the table the model resolves. The space is "
-    "finite and enumerated completely, which is the right level for a property about 13k lines of tables.",
+    "finite and enumerated completely, which is the right level for a property about 13k lines of tables. One of the laws pins the "
+    "orientation of the point group: rotations with the inversion added must equal the closure of the generators of the Laue group the "
+    "label names, in the axes of the setting.",
     "Trusted: TLC, the exporter's conversion of translations to 24ths (rejects anything off a 24th by >1e-4), "
     "numpy equality. Monoclinic metric basis assumes unique axis b (the only setting tabulated).",
     "TLA+ spec SpaceGroup.tla model-checked by TLC on exported tables + replay of every lookup behaviour into sg.sg",
@@ -34,7 +36,8 @@ chk("C04", "model_checking",
 
 chk("C15", "model_checking",
     "TLC computes the exact orbit size of rational positions under every exported table (all 237 settings; quick: 60 seeded "
-    "grid points + 28 special-position family members per table, thorough: the full 12^3 grid + families) and checks "
+    "grid points + 2 x 28 special-position family members per table - generic parameters 331/2400.. and the decimal 0.123455, 0.271, "
+    "0.062505 that sits on rounding ties of a 1e-5 grid -, thorough: the full 12^3 grid + families) and checks "
     "orbit-stabiliser, divisibility, representative-independence and lattice-shift invariance in the model; every case is "
     "replayed into the real multiplicity() with float coordinates shifted by lattice vectors, by number+setting and by name, as list / "
     "array / numpy-integer group number, lattice points also as Python ints; the multiplicity calls the repository's own tests make "
@@ -71,16 +74,17 @@ chk("C11", "model_checking",
     "the code's compositions executed one primitive per action; invariants: trans_orientation stores pixel (x,y) at the index the "
     "coordinate requirement prescribes, the map is a bijection, inverse mode undoes forward mode, the coordinate functions are mutual "
     "inverses (quarter-pixel resolution), validation accepts exactly the signed permutation matrices (all 81). Every terminal state, "
-    "every pixel, the 73 x 4 rejections, large non-square shapes (coordinates from TLC) and exact circle points for eta/radius are "
-    "replayed into the real functions.",
+    "every pixel, the 73 x 4 rejections, large non-square shapes (coordinates from TLC), exact circle points for eta/radius and whole "
+    "pixels (integer-typed, four containers) against a centre in quarter pixels are replayed into the real functions.",
     "Trusted: TLC; numpy index semantics as written in Flips.tla (the replay compares them with numpy). Size convention as stated in the property.",
     "TLA+ specs Flips.tla / FlipsBig.tla / EtaRad.tla model-checked exhaustively by TLC + replay of every terminal state into xfab.detector",
     "DESIGN.md section 7 C11")
 
 chk("C20", "model_checking",
-    "Checks.tla models the switch and every guard site (8 guarded APIs x input classes, tools/laue/symmetry). TLC enumerates every "
-    "behaviour with 2 (quick) / 3 (thorough) API events over a 69-event alphabet plus simulated behaviours of 14 events and checks "
-    "SwitchIsLastValid, NeverRejectsValid, OffMeansOff, OnRejectsInvalid and the action property InvalidAssignKeeps; every behaviour is "
+    "Checks.tla models the switch and every guard site (8 guarded APIs and 2 functions composed of them x input classes, "
+    "tools/laue/symmetry). TLC enumerates every behaviour with 2 (quick) / 3 (thorough) API events over a 76-event alphabet plus "
+    "simulated behaviours of 14 events and checks SwitchIsLastValid, NeverRejectsValid, OffMeansOff, OnRejectsInvalid and the action "
+    "properties InvalidAssignKeeps and CallsKeepSwitch; every behaviour is "
     "replayed into the real package with outcome class, switch state and (for valid inputs) the returned value compared after each "
     "event. In the other direction hypothesis histories of up to 30 events are recorded from the real package and validated by TLC "
     "against Trace_Checks.tla; two corrupted canary traces must be rejected on every run. Also: assignments to a second instance of the "
@@ -93,9 +97,10 @@ chk("C20", "model_checking",
 
 chk("C19", "model_checking",
     "Parameters.tla is a dictionary-level model of the parameters object (tokens for int/float/text kinds, dumbtypecheck coercion, "
-    "vary lists, the companion object, the sorted text file, load into the same or a fresh object). TLC enumerates every behaviour "
+    "vary lists and step sizes, the companion object, the sorted text file, load into the same or a fresh object or through read_par_file, "
+    "the keyword constructor, par objects transported as string lists, all getters). TLC enumerates every behaviour "
     "with 2 (quick) / 3 (thorough) API events over a small alphabet and simulates behaviours of 25 events over a rich alphabet, "
-    "checking RoundTrip, VariedFollows, TypeOK and the action property VarylistLegal; every behaviour is replayed into a real object "
+    "checking RoundTrip, VariedFollows, StepsFollow, StepsizesDomain, TypeOK and the action property VarylistLegal; every behaviour is replayed into a real object "
     "and the full projected state compared after every call. hypothesis histories (<= 30 events; random doubles compared bit-exactly, "
     "ints to 2^62, numeric-looking/padded/blank text) recorded from the real object are validated by TLC against "
     "Trace_Parameters.tla; an intact canary trace must be accepted and two corrupted ones rejected on every run. The exhaustive alphabet "
@@ -110,7 +115,8 @@ chk("C12", "model_checking",
     "crystal systems: group axioms and orders 1,2,4,8,6,12,24, the paired rotations (integers, or exact Z[sqrt3]/6 for "
     "trigonal/hexagonal) are proper rotations forming a group, and rot.B.perm = B on a basis of the conforming B matrices. It emits the "
     "exact rotations and, for seeded Cayley rotation pairs, the exact cosine of every misorientation. rotations(), ROTATIONS and "
-    "Umis are compared with these values; the four Umis invariances and Umis(U,U) containing 0 are run as metamorphic calls.",
+    "Umis are compared with these values (pairs include misorientations of exactly 0 and exactly 180 degrees carrying rounding noise); the "
+    "four Umis invariances and Umis(U,U) containing 0 are run as metamorphic calls, every angle must be finite.",
     "Trusted: TLC; float sqrt(3) in converting exact values; monoclinic basis for unique axis b.",
     "TLA+ spec Symmetry.tla (exact integer / Z[sqrt3] algebra) model-checked by TLC on exported tables + replay into rotations()/Umis",
     "DESIGN.md section 7 C12")
@@ -148,7 +154,8 @@ chk("C03", "model_checking",
     "documented composition of elementary rotations over Pythagorean angles, i.e. exact integer matrices over a denominator; TLC checks "
     "N'N = den^2 I, det N = den^3 and the gimbal structure and emits the exact matrix, which the real builders of both modules must "
     "reproduce to 1e-12. u_to_euler and u_to_rod are run on every lattice matrix (PHI exactly 0/pi, axis-aligned, |r| up to 1000) and "
-    "must return angles in range that rebuild the input to 1e-6. Gimbal.tla enumerates the full product of magnitude classes for the "
+    "must return angles in range that rebuild the input to 1e-6; Rodrigues vectors up to |r| = 19 000 (179.994 degrees) must come back with "
+    "sign and size. Gimbal.tla enumerates the full product of magnitude classes for the "
     "near-gimbal band (PHI = 0/pi +- 1e-1..1e-13, phi near 0, pi, 2pi); there the property itself is the oracle on a matrix the "
     "harness builds from its own Rz.Rx.Rz product.",
     "Trusted: TLC integer algebra; atan2/cos/sin of the harness to produce float arguments; the near-gimbal band is covered by classes, not by exact rationals.",
@@ -181,7 +188,8 @@ chk("C09", "model_checking",
     "inequality; TLC checks |g_lab|^2 = sin^2(theta) and orthonormality where they fit 32 bits. g_w = Omega' g_lab must then diffract "
     "at the constructed (omega, eta): every solver in both modules must return exactly two solutions away from tangency, the "
     "constructed one among them, every returned pair must satisfy the three-component diffraction condition under the module's own "
-    "matrix, omega in (-pi, pi]; unreachable g-vectors must give no solution. tth/tth2 are compared with the exact Q* of Cell.tla.",
+    "matrix, omega in (-pi, pi]; unreachable g-vectors must give no solution. A near-axis family (2theta 0.57..11 degrees, g within "
+    "0.005 rad of the rotation axis, absolute discriminant 1e-9..1e-7) is part of every run. tth/tth2 are compared with the exact Q* of Cell.tla.",
     "Trusted: TLC; float products of the exact rationals; tolerance 1e-9 (1e-6 at exactly tangent constructions).",
     "TLA+ spec Omega.tla (constructive exact diffraction geometry) model-checked by TLC + replay into the four solvers of both modules",
     "DESIGN.md section 7 C09")
@@ -192,7 +200,9 @@ chk("C10", "model_checking",
     "rotation, the ray a unit vector pointing towards the detector. The construction is pixel-first: the harness chooses distance, pixel "
     "sizes, beam centre, a rational pixel and ray parameter and forms detector point and grain position with exact fractions, so the "
     "expected pixel is an input of the construction, not a computed value. det_coor2 and det_coor must return that pixel and agree, "
-    "detector_to_lab must return the detector point and lie on the ray, det_v the direction, detect_tilt (both modules) the matrix.",
+    "detector_to_lab must return the detector point and lie on the ray, det_v the direction, detect_tilt (both modules) the matrix. A second, "
+    "position-first family passes the grain position as integers (Python ints / numpy integers, (0,0,0) above all) with a non-integer distance; "
+    "the expected pixel is then an exact fraction computed from the rational R and v.",
     "Trusted: TLC; Python fractions for the exact construction; tolerance 1e-9 relative.",
     "TLA+ spec Detector.tla (exact tilt and ray) model-checked by TLC + pixel-first exact construction replayed into xfab.detector",
     "DESIGN.md section 7 C10")
@@ -225,7 +235,7 @@ chk("C16", "model_checking",
     "(integers x 10^6), for each of the 94 entries: |sum a_i + c - Z| <= 0.1, all b_i > 0, one entry per element, and the sign patterns "
     "that settle monotonic decrease (all a_i b_i > 0) and positivity analytically. The exponentials TLC cannot evaluate are covered by "
     "replay: FormFactor(el, s) against an independent evaluation of the exported record on a grid of s in [0, 2], with positivity and "
-    "monotonic decrease checked on that grid for every entry.",
+    "monotonic decrease checked on that grid for every entry; array arguments, also the same array object refilled in place between calls.",
     "Trusted: TLC; 6-decimal export; grid evaluation for the entries whose sign pattern does not settle the claim analytically (B, N, Cl have c < 0: positivity is a grid fact).",
     "TLA+ spec FormFactor.tla (exact integer decisions per entry) model-checked by TLC + grid replay of FormFactor",
     "DESIGN.md section 7 C16")
@@ -248,7 +258,7 @@ chk("C14", "exploration",
     "inverse negates, *2pi/ /2pi shift, calls demand the callee's weights); it flags exactly tools.ubi_to_u_and_eps. The harness then calls "
     "every shared function in both modules on inputs from the exact lattices (own TLC emissions of Cell, Orient, GenHkl, Omega, Strain; "
     "Pythagorean angles), maps arguments and results through the weights and compares at 1e-12 (integer rows exactly, same numpy seed for "
-    "the generators). Coverage is counted per function and a function without a compared call fails the check.",
+    "the generators; the older generator genhkl for every crystal system). Coverage is counted per function and a function without a compared call fails the check.",
     "Differential conformance driven by the specification, not a proof; TLC contributes the mapping, the unit analysis and the inputs. The "
     "known finding of C13 (tools.ubi_to_u_and_eps) is the one listed deviation.",
     "TLA+ spec Conventions.tla (weight signatures + unit-analysis machine) model-checked by TLC; differential execution of all 41 shared functions",
